@@ -75,6 +75,16 @@ pub const POOL: &[&str] = &[
     ":s 'ab'",
     "$ == 1 ?> 'cd' |> 'ab'",
     "'ab' 'ab' \"cd\" \"cd\"",
+    // symbols and their names: a symbol written in one program, the same symbol made from text at run time in another,
+    // and both turned back into text (the name table is shared by everything in the data object)
+    ":total ~# \"\"",
+    "\"total\" ~# :k",
+    "(:total ~# \"\") ~# :k",
+    "(\"total\" ~# :k) ~# \"\"",
+    ":héllo ~# \"\"",
+    "\"héllo\" ~# :k",
+    ":total == (\"total\" ~# :k)",
+    ":other ~# \"\"",
 ];
 
 /// one-constant programs whose constants are near misses of each other: texts, byte lists and symbols of several
@@ -184,7 +194,7 @@ fn judge_sequence<D: GD>(d: &mut D, imp: Impl, programs: &[(String, ParseResult,
             // a program that fails when built alone (e.g. the empty program, recorded under C06) has no baseline to compare with
             if target.alone.is_some() && !matches!((&got, &target.alone), (Some(a), Some(b)) if same(a, b)) {
                 ctx.fail(
-                    format!("shared-run-differs-from-alone:between-builds{}", unsettled_construct(&target.text, &input)),
+                    format!("shared-run-differs-from-alone:between-builds{}", unsettled_tag(&target.text, &input, imp)),
                     format!("{:?} (program #{} of {}) run between builds on {} gives {} but alone it gives {}", target.text, which, programs.len(), imp.name(), show(&got), show(&target.alone)),
                 );
             }
@@ -196,7 +206,7 @@ fn judge_sequence<D: GD>(d: &mut D, imp: Impl, programs: &[(String, ParseResult,
         ctx.sub_evals += 1;
         if b.alone.is_some() && !matches!((&got, &b.alone), (Some(a), Some(x)) if same(a, x)) {
             ctx.fail(
-                format!("shared-run-differs-from-alone:after-all-builds{}", unsettled_construct(&b.text, &input)),
+                format!("shared-run-differs-from-alone:after-all-builds{}", unsettled_tag(&b.text, &input, imp)),
                 format!("{:?} (program #{} of {}: {:?}) run from its entry {} on {} gives {} but alone it gives {}", b.text, k, built.len(), programs.iter().map(|p| p.0.as_str()).collect::<Vec<_>>(), b.ext.entry, imp.name(), show(&got), show(&b.alone)),
             );
         }
@@ -320,6 +330,15 @@ impl Check for C20Check {
 
 /// root-cause key for a differing run: does the program look a symbol up in a list that holds that key twice? (the
 /// reference evaluator leaves that look-up undefined; SimpleGarnishData answers it by item address, see the recorded finding)
+fn unsettled_tag(text: &str, input: &V, imp: Impl) -> &'static str {
+    // a program that makes a symbol from text at run time (`"total" ~# :k`): on BasicGarnishData such a symbol has no name
+    // of its own, so its text depends on whether another program in the object spelled it (recorded finding)
+    if imp == Impl::Basic && text.contains("~# :") {
+        return "[makes-a-symbol-from-text-at-run-time:Basic]";
+    }
+    unsettled_construct(text, input)
+}
+
 fn unsettled_construct(text: &str, input: &V) -> &'static str {
     let toks = match crate::model::refparse::tokens_from_text(text) {
         Ok(t) => t,
